@@ -4,6 +4,7 @@ import NixModel.Lemmas.C15Read
 import NixModel.Lemmas.C15Hist
 import NixModel.Lemmas.C15Select
 import NixModel.Lemmas.C15Range
+import NixModel.Lemmas.C15Float
 
 /-!
 # C15 — calibration is applied on every read and never touches the stored values
@@ -230,6 +231,62 @@ theorem C15_view_formula (a : Arr) (v : View) (uix : Index) (r : Result) (hv : v
 theorem C15_invalid_view_empty (a : Arr) (v : View) (uix : Index) (hv : v.valid = false) :
     readView a v uix = .ok ⟨.float64, [0], []⟩ := by
   simp [readView, hv]
+
+
+/-! ## The partial aspect: rounding of the float evaluation
+
+The theorems above are about exact arithmetic.  What the implementation computes in doubles is related to
+them by the standard model of IEEE arithmetic (`Rounds u exact r`: `r = exact·(1+δ)`, `|δ| ≤ u`; no
+overflow / underflow; `x` and `o` themselves doubles).  `FloatPolyval u yf c r` says that `r` is *some*
+execution of NumPy's `polyval` loop at `yf` in which every multiplication and addition is rounded that way. -/
+
+/-- **float bound.** For a non-empty coefficient list with `n` entries, the double a read returns for the
+stored element `x` differs from `Σ cₖ (x−o)ᵏ` by at most `((1+u)^(3n−2) − 1) · Σ |cₖ| |x−o|ᵏ`. -/
+theorem C15_float_bound (u : Rat) (hu : 0 ≤ u) (c : List Rat) (x o yf r : Rat)
+    (hy : Rounds u (x - o) yf) (hr : FloatPolyval u yf c r) :
+    |r - polySum c (x - o)|
+      ≤ ((1 + u) ^ (3 * c.length - 2) - 1) * polySum (c.map (fun a => |a|)) |x - o| := by
+  obtain ⟨d, hd, rfl⟩ := hy
+  obtain ⟨top, rest, hrev, hloop⟩ := hr
+  have hc : c = rest.reverse ++ [top] := by
+    have := congrArg List.reverse hrev
+    simpa using this
+  have hw : |(1 + d) - 1| ≤ u := by simpa using hd
+  have h := float_polyval_bound u (x - o) (1 + d) r hu hw top rest hloop
+  rw [← hc] at h
+  have hlen : c.length = rest.length + 1 := by simp [hc]
+  rw [← hlen] at h
+  simpa [polySum, evalAbs, evalAsc_eq_sum, g] using h
+
+/-- with `3n·u ≤ 1/2` (for doubles: any `n` below 10¹⁵) the bound is at most `6n·u·Σ |cₖ| |x−o|ᵏ` — the
+correspondence harness allows `4(2n+1)·u·Σ |cₖ| |x−o|ᵏ`, which is larger -/
+theorem C15_float_bound_linear (u : Rat) (hu : 0 ≤ u) (c : List Rat) (x o yf r : Rat)
+    (hsmall : ((3 * c.length : Nat) : Rat) * u ≤ 1 / 2)
+    (hy : Rounds u (x - o) yf) (hr : FloatPolyval u yf c r) :
+    |r - polySum c (x - o)| ≤ 6 * c.length * u * polySum (c.map (fun a => |a|)) |x - o| := by
+  have h := C15_float_bound u hu c x o yf r hy hr
+  have hS : 0 ≤ polySum (c.map (fun a => |a|)) |x - o| := by
+    have := evalAbs_nonneg |x - o| (abs_nonneg _) c
+    simpa [polySum, evalAbs, evalAsc_eq_sum] using this
+  have hg : g u (3 * c.length - 2) ≤ g u (3 * c.length) := g_mono u hu (by omega)
+  have hl := g_le_linear u hu (3 * c.length) hsmall
+  have hcast : (2 : Rat) * ((3 * c.length : Nat) : Rat) * u = 6 * c.length * u := by push_cast; ring
+  rw [hcast] at hl
+  have hgg : (1 + u) ^ (3 * c.length - 2) - 1 ≤ 6 * c.length * u := le_trans hg hl
+  calc |r - polySum c (x - o)|
+      ≤ ((1 + u) ^ (3 * c.length - 2) - 1) * polySum (c.map (fun a => |a|)) |x - o| := h
+    _ ≤ 6 * c.length * u * polySum (c.map (fun a => |a|)) |x - o| :=
+        mul_le_mul_of_nonneg_right hgg hS
+
+/-- origin without coefficients: the read returns the rounded difference, within `u·|x−o|` -/
+theorem C15_float_bound_origin_only (u x o r : Rat) (h : Rounds u (x - o) r) :
+    |r - (x - o)| ≤ u * |x - o| :=
+  float_origin_only_bound u (x - o) r h
+
+/-- non-vacuity: the exact evaluation is one of the float executions the bound speaks about -/
+example (u : Rat) (hu : 0 ≤ u) (y top : Rat) (rest : List Rat) :
+    FloatPolyval u y (rest.reverse ++ [top]) (polyvalLoop y top rest) :=
+  ⟨top, rest, by simp, floatLoop_exact u y hu rest top⟩
 
 /-! ## Non-vacuity: concrete arrays meeting the hypotheses, with the values the theorems speak about -/
 
